@@ -4,7 +4,7 @@ from __future__ import annotations
 import ast
 import typing as T
 
-from ..core import Undecided, Module, norm, short, attr_chain, call_name, call_method, walk_no_nested, kwarg, decorator_names
+from ..core import Undecided, Module, norm, short, attr_chain, call_name, call_method, walk_no_nested, kwarg, decorator_names, names_in
 from ..cfg import Node
 from ..report import Rule, RuleCtx
 from .. import tables
@@ -38,11 +38,19 @@ EXPLANATION = (
     'R10 a pool named by a rule (`pool = X`) is declared (`pool X`) under a threshold condition on the same quantity that the naming condition implies. '
     'R11 every call site of a method that receives two distinct directories of the environment passes them in the same roles as the other call sites (source / build directory swapped); '
     'R12 a per-target file name that exactly one function turns into the output of a statement is handed out elsewhere only for target classes for which that function is called. '
+    'R13 a per-target file name whose only producer writes its statement under a predicate of the backend on the target (depscan.json / should_use_dyndeps_for_target) is named for the '
+    'members of a collection only under that predicate on the member itself (loop guard, comprehension filter or pre-filtered collection); another condition on the member is not compared. '
+    'R14 a raw path taken from the link command line is added to the implicit dependencies guess_external_link_dependencies returns only under a dominating existence test of that path '
+    '(paths resolved by a helper are not examined). '
+    'The aggregate inputs of R4 are read in the table loop itself, in a comprehension, or in a generator / list-building helper that receives the targets of the row; a conditional-expression operand '
+    'of yield / return / assignment is read as the if/else statement of both instances in every decision table of the pack. '
     'Not decided (declared limits): which of two in-scope objects a filter records (BuildTarget.extract_objects appending the parent target instead of the requested source is a '
     'value-level choice);  agreement between the condition under which a precompiled header is listed as a dependency and the condition under which its '
     'statement is generated (needs relating computed file names across functions);  equality of output paths modulo normalisation (`x/o` vs `./x/o`: the registry compares the strings it is given); files the backend '
     'creates itself at configure time (library alias symlinks) against statement outputs; arithmetic agreement of the unity-file count in _determine_ext_objs with the '
     'chunking loop of generate_unity_files; path identity tests in the legacy Fortran scanner (samefile vs ==). '
+    'Does NOT decide which strings a configure-time validation predicate rejects (validate_build_subdir narrowing `\'..\' in build_subdir` to a test on the normalised path is a value-level '
+    'change of a string predicate; the collision it lets through is between two spellings of one directory, see path normalisation above). '
     'Does NOT decide acyclicity, existence of inputs, reachability from `all` of a concrete project, whether the guard under which a '
     'rule is defined (language present, machine is AIX...) agrees with the guard under which it is used, or whether a backend utility target that is '
     'neither reserved nor guarded is acceptable (a collision is then still rejected at generation time by R1/R2, e.g. coverage-sonarqube).')
@@ -88,6 +96,11 @@ def _own_calls(fn: ast.AST) -> T.List[ast.Call]:
         hit = (fn, [c for c in walk_no_nested(fn, include_root=False) if isinstance(c, ast.Call)])
         _CALLS[id(fn)] = hit
     return hit[1]
+
+
+def _extract(fn: T.Any, *, body: T.Optional[T.Sequence[ast.stmt]] = None, **kw: T.Any) -> tables.Table:
+    """sa.tables.extract over the normal form of the statements: `yield/return/assign a if c else b` is the if/else statement of both instances."""
+    return tables.extract(fn, body=L.split_ifexp_stmts(body if body is not None else fn.body), **kw)
 
 
 def _is_ctor(c: ast.Call, name: str) -> bool:
@@ -891,7 +904,7 @@ def r3b(ctx: RuleCtx) -> None:
         if isinstance(st, (ast.Assign, ast.AugAssign)):
             return 'other:' + norm(st)
         return None
-    tab = tables.extract(cr, effects=eff, name='count_rule_references')
+    tab = _extract(cr, effects=eff, name='count_rule_references')
     A_RSP = tables.Atom('truth', ('self._should_use_rspfile',))
     A_PH = tables.Atom('cmp', ('eq', 'self.rulename', "'phony'"))
     unknown = [a for a in tab.atoms() if a not in (A_RSP, A_PH)]
@@ -943,7 +956,7 @@ def r3b(ctx: RuleCtx) -> None:
     if gen_q is not None:
         # the variants come from a nested generator or a generator method
         g = mod.func(gen_q)
-        gt = tables.extract(g, effects=lambda st: ('yield ' + norm(st.value.value)) if isinstance(st, ast.Expr) and isinstance(st.value, ast.Yield) else None, name='rule variants')
+        gt = _extract(g, effects=lambda st: ('yield ' + norm(st.value.value)) if isinstance(st, ast.Expr) and isinstance(st.value, ast.Yield) else None, name='rule variants')
     elif isinstance(src, ast.Name):
         # the variants are collected in a local list: empty at first, then `append(<suffix>)` under conditions
         lv = src.id
@@ -964,7 +977,7 @@ def r3b(ctx: RuleCtx) -> None:
             if isinstance(st, ast.Expr) and isinstance(st.value, ast.Call) and call_name(st.value) == f'{lv}.append':
                 return 'yield ' + norm(st.value.args[0])
             return None
-        gt = tables.extract(rw.fn, body=stmts, effects=leff, inline=False, name='rule variants')
+        gt = _extract(rw.fn, body=stmts, effects=leff, inline=False, name='rule variants')
     else:
         raise Undecided(f'NinjaRule.write: the rule variants come from `{short(src, 60)}`, a form the rule does not read')
     def counter(a: tables.Atom) -> T.Optional[T.Tuple[str, bool]]:
@@ -1142,46 +1155,144 @@ def r4(ctx: RuleCtx) -> None:
     rule_e = L.inline_locals(info, ea['rulename'], en) if 'rulename' in ea else None
     ctx.require(isinstance(rule_e, ast.Constant) and rule_e.value == 'phony', 'the aggregates are phony statements', mod, qn, el,
                 f'aggregate statement uses rule {norm(rule_e)}, not phony', el)
-    if not isinstance(ea.get('infilenames'), ast.Name):
-        raise Undecided('aggregates: aggregate inputs are not a local list')
-    lst = ea['infilenames'].id  # type: ignore[attr-defined]
-    # list is (re)initialised empty inside the outer loop
-    ldefs = info.base_defs(lst, en)
+    inf_e = ea.get('infilenames')
+    if inf_e is None:
+        raise Undecided('aggregates: the aggregate statement names no inputs')
+
+    def drained(e: ast.AST) -> ast.AST:
+        """list(X) / tuple(X) / [*X] -> X: the sequence whose elements become the inputs."""
+        while True:
+            if isinstance(e, ast.Call) and isinstance(e.func, ast.Name) and e.func.id in ('list', 'tuple') and len(e.args) == 1 and not e.keywords:
+                e = e.args[0]
+            elif isinstance(e, (ast.List, ast.Tuple)) and len(e.elts) == 1 and isinstance(e.elts[0], ast.Starred):
+                e = e.elts[0].value
+            else:
+                return e
+
+    def agg_helper(e: ast.AST) -> T.Optional[T.Tuple[str, str, str]]:
+        """`self.h(.., <row targets>, ..)` / `h(self, <row targets>)`: a backend method or module function that receives the targets of the row
+        -> (qualified name, its parameter that holds the targets, the name the backend has inside it)."""
+        if not isinstance(e, ast.Call):
+            return None
+        cn_ = call_name(e) or ''
+        if cn_.startswith('self.') and cn_.count('.') == 1 and f'{BACKEND}.{cn_[5:]}' in funcs:
+            hq_ = f'{BACKEND}.{cn_[5:]}'
+            implicit = 'staticmethod' not in decorator_names(funcs[hq_])
+        elif isinstance(e.func, ast.Name) and mod.has_func(e.func.id) and not info.defs().get(e.func.id) and e.func.id not in info.params:
+            hq_, implicit = e.func.id, False
+        else:
+            return None
+        bd = L.bind_call(e, mod.func(hq_), implicit) or {}
+        if '*' in bd or '**' in bd:
+            raise Undecided(f'aggregates: `{short(e, 60)}` passes star arguments to the helper that collects the inputs')
+        tp = [p_ for p_, a_ in bd.items() if norm(a_) == dvar]
+        if len(tp) != 1:
+            return None
+        recv = next((p_ for p_, a_ in bd.items() if isinstance(a_, ast.Name) and a_.id == 'self'), 'self')
+        return hq_, tp[0], recv
+
+    helper: T.Optional[T.Tuple[str, str, str]] = None
+    hnode = en
+    if isinstance(inf_e, ast.Name):
+        lst = inf_e.id
+        ldefs = info.base_defs(lst, en)
+        if len(ldefs) == 1 and isinstance(ldefs[0], L.Def) and ldefs[0].kind == 'assign' and ldefs[0].value is not None:
+            helper = agg_helper(drained(ldefs[0].value))
+            hnode = ldefs[0].node
+            if helper is not None and [n_ for n_, _c, _a in info.additions(lst)]:
+                raise Undecided(f'aggregates: `{lst}` is collected by {helper[0]} and also added to in {qn}')
+    else:
+        helper = agg_helper(drained(inf_e))
+        lst = '<inputs>'
+        if helper is None:
+            raise Undecided('aggregates: aggregate inputs are neither a local list nor the result of a backend helper that receives the targets of the row')
     if outer is not None:
         in_outer = cfg.reachable([cfg.nodes[b] for b, lab in cfg.succ[outer.id] if lab == 'iter'], [outer], include_start=True)
     else:
         in_outer = {n.id for n in cfg.nodes}
     comp = None
-    if len(ldefs) == 1 and isinstance(ldefs[0], L.Def) and isinstance(ldefs[0].value, ast.ListComp):
-        lc = ldefs[0].value
-        droot = dvar.split('.')[0]
-        if len(lc.generators) == 1 and norm(lc.generators[0].iter) == dvar and isinstance(lc.generators[0].target, ast.Name) \
-                and not lc.generators[0].ifs and info.reaching(droot, ldefs[0].node) == info.reaching(droot, en):
-            comp = lc
+    recv = 'self'
+    if helper is not None:
+        # accumulate-in-loop <-> generator / list-building helper (refactoring kinds D7, E1): the obligations are read in the helper
+        hq, hparam, recv = helper
+        rdh = info.reaching(dvar.split('.')[0], hnode)
+        ctx.require(len(rdh) == 1 and ((isinstance(rdh[0], L.Def) and outer is not None and rdh[0].node.id == outer.id) or (outer is None and rdh[0] == L.ENTRY)),
+                    'the inner loop iterates the targets of the current table row', mod, qn,
+                    dvar, f'`{dvar}` is rebound between the table row and the call of {hq} that collects its inputs', el)
+        if hnode.id not in in_outer:
+            ctx.violation(mod, qn, f'{lst} = []', f'the inputs of the aggregate statement are collected by {hq} outside the table loop: aggregates would share inputs', el)
+        ainfo = infos.get(hq)
+        aqn = hq
+        acfg = ainfo.cfg
+        inner = [n for n in acfg.nodes if n.kind == 'iter' and norm(n.ast.iter) == hparam and isinstance(n.ast.target, ast.Name)]  # type: ignore[union-attr]
+        if len(inner) != 1:
+            raise Undecided(f'aggregates: {len(inner)} loops over the aggregate targets in {hq}')
+        il = inner[0]
+        tv = il.ast.target.id  # type: ignore[union-attr]
+        if ainfo.reaching(hparam, il) != [L.ENTRY]:
+            raise Undecided(f'aggregates: {hq} rebinds its parameter `{hparam}` before the loop over it')
+        inner_body = {id(x) for st in il.ast.body for x in ast.walk(st)}  # type: ignore[union-attr]
+        is_gen = any(isinstance(x, (ast.Yield, ast.YieldFrom)) for x in walk_no_nested(ainfo.fn, include_root=False))
+        adds: T.List[T.Tuple[Node, ast.AST, T.Optional[ast.AST]]] = []
+        if is_gen:
+            for n in acfg.nodes:
+                for r_ in L.node_roots(n):
+                    for y in walk_no_nested(r_):
+                        if id(y) in inner_body and isinstance(y, ast.Yield) and y.value is not None:
+                            adds.append((n, y, y.value))
+                        elif id(y) in inner_body and isinstance(y, ast.YieldFrom):
+                            adds.append((n, y, None))
+            lst = f'<values yielded by {hq.split(".")[-1]}>'
         else:
-            raise Undecided(f'aggregates: `{lst}` starts as the comprehension `{short(lc, 70)}`, a form the rule does not read')
-    fresh = len(ldefs) == 1 and isinstance(ldefs[0], L.Def) and ldefs[0].node.id in in_outer and \
-        (comp is not None or (isinstance(ldefs[0].value, ast.List) and not ldefs[0].value.elts))
-    stale = [d for d in ldefs if not isinstance(d, L.Def) or d.node.id not in in_outer]
-    if not fresh and not stale:
-        raise Undecided(f'aggregates: `{lst}` is created inside the table loop, but not as one empty list display')
-    ctx.require(fresh, f'the input list `{lst}` starts empty for each aggregate', mod, qn, f'{lst} = []',
-                f'the input list `{lst}` of the aggregate statement is not re-created empty inside the table loop: aggregates would share inputs', el)
-    inner = [n for n in cfg.nodes if n.kind == 'iter' and norm(n.ast.iter) == dvar and isinstance(n.ast.target, ast.Name)]  # type: ignore[union-attr]
-    if comp is not None:
-        inner = [n for n in inner if any(id(c) in {id(x) for st in n.ast.body for x in ast.walk(st)} for _, c, _e in info.additions(lst))]  # type: ignore[union-attr]
-    if len(inner) != (0 if comp is not None and not inner else 1):
-        raise Undecided(f'aggregates: {len(inner)} loops over the aggregate targets')
-    il = inner[0] if inner else ldefs[0].node  # type: ignore[union-attr]
-    tv = il.ast.target.id if inner else comp.generators[0].target.id  # type: ignore[union-attr]
-    rd = info.reaching(dvar.split('.')[0], il)
-    ctx.require(len(rd) == 1 and ((isinstance(rd[0], L.Def) and outer is not None and rd[0].node.id == outer.id) or (outer is None and rd[0] == L.ENTRY)),
-                'the inner loop iterates the targets of the current table row', mod, qn,
-                dvar, f'`{dvar}` is rebound between the table row and the loop over it', il.ast)
+            rets = [n for n in acfg.nodes if n.kind == 'stmt' and isinstance(n.ast, ast.Return)]
+            rnames = {norm(drained(n.ast.value)) if n.ast.value is not None else 'None' for n in rets}  # type: ignore[union-attr]
+            if len(rnames) != 1 or not next(iter(rnames)).isidentifier() or next(iter(rnames)) == 'None':
+                raise Undecided(f'aggregates: {hq} does not return one local list on every path')
+            hl = next(iter(rnames))
+            for rn_ in rets:
+                hd = ainfo.base_defs(hl, rn_)
+                if not (len(hd) == 1 and isinstance(hd[0], L.Def) and isinstance(hd[0].value, ast.List) and not hd[0].value.elts):
+                    raise Undecided(f'aggregates: the list `{hl}` returned by {hq} does not start as one empty list display')
+            adds = [(n, c, a) for n, c, a in ainfo.additions(hl) if id(c) in inner_body]
+            lst = hl
+        ends = [il, acfg.exit_return]
+        ctx.ok(f'the inputs of each aggregate are collected afresh by {hq} from the targets of the row')
+    else:
+        ainfo, aqn, acfg = info, qn, cfg
+        if len(ldefs) == 1 and isinstance(ldefs[0], L.Def) and isinstance(ldefs[0].value, ast.ListComp):
+            lc = ldefs[0].value
+            droot = dvar.split('.')[0]
+            if len(lc.generators) == 1 and norm(lc.generators[0].iter) == dvar and isinstance(lc.generators[0].target, ast.Name) \
+                    and not lc.generators[0].ifs and info.reaching(droot, ldefs[0].node) == info.reaching(droot, en):
+                comp = lc
+            else:
+                raise Undecided(f'aggregates: `{lst}` starts as the comprehension `{short(lc, 70)}`, a form the rule does not read')
+        fresh = len(ldefs) == 1 and isinstance(ldefs[0], L.Def) and ldefs[0].node.id in in_outer and \
+            (comp is not None or (isinstance(ldefs[0].value, ast.List) and not ldefs[0].value.elts))
+        stale = [d for d in ldefs if not isinstance(d, L.Def) or d.node.id not in in_outer]
+        if not fresh and not stale:
+            raise Undecided(f'aggregates: `{lst}` is created inside the table loop, but not as one empty list display')
+        ctx.require(fresh, f'the input list `{lst}` starts empty for each aggregate', mod, qn, f'{lst} = []',
+                    f'the input list `{lst}` of the aggregate statement is not re-created empty inside the table loop: aggregates would share inputs', el)
+        inner = [n for n in cfg.nodes if n.kind == 'iter' and norm(n.ast.iter) == dvar and isinstance(n.ast.target, ast.Name)]  # type: ignore[union-attr]
+        if comp is not None:
+            inner = [n for n in inner if any(id(c) in {id(x) for st in n.ast.body for x in ast.walk(st)} for _, c, _e in info.additions(lst))]  # type: ignore[union-attr]
+        if len(inner) != (0 if comp is not None and not inner else 1):
+            raise Undecided(f'aggregates: {len(inner)} loops over the aggregate targets')
+        il = inner[0] if inner else ldefs[0].node  # type: ignore[union-attr]
+        tv = il.ast.target.id if inner else comp.generators[0].target.id  # type: ignore[union-attr]
+        rd = info.reaching(dvar.split('.')[0], il)
+        ctx.require(len(rd) == 1 and ((isinstance(rd[0], L.Def) and outer is not None and rd[0].node.id == outer.id) or (outer is None and rd[0] == L.ENTRY)),
+                    'the inner loop iterates the targets of the current table row', mod, qn,
+                    dvar, f'`{dvar}` is rebound between the table row and the loop over it', il.ast)
+        inner_body = {id(x) for st in il.ast.body for x in ast.walk(st)} if inner else set()  # type: ignore[union-attr]
+        adds = [(n, c, a) for n, c, a in info.additions(lst) if id(c) in inner_body]
+        if comp is not None:
+            adds.append((ldefs[0].node, comp, comp.elt))  # type: ignore[union-attr]
+        ends = [il, en]
     # the first-output append on every iteration
-    want_dir = f'self.get_target_dir({tv})'
+    want_dir = f'{recv}.get_target_dir({tv})'
     want_out = f'{tv}.get_outputs()[0]'
-    inner_body = {id(x) for st in il.ast.body for x in ast.walk(st)} if inner else set()  # type: ignore[union-attr]
 
     def output_index(e: ast.AST) -> T.Optional[ast.AST]:
         """`<tv>.get_outputs()[k]` -> k, anything else -> None."""
@@ -1191,15 +1302,12 @@ def r4(ctx: RuleCtx) -> None:
     firsts = []
     unknown = []
     total = 0
-    adds: T.List[T.Tuple[Node, ast.AST, T.Optional[ast.AST]]] = [(n, c, a) for n, c, a in info.additions(lst) if id(c) in inner_body]
-    if comp is not None:
-        adds.append((ldefs[0].node, comp, comp.elt))  # type: ignore[union-attr]
     for n, c, a0 in adds:
         total += 1
         if a0 is None:
             unknown.append(c)
             continue
-        a = L.inline_locals(info, a0, n) if c is not comp else a0
+        a = L.inline_locals(ainfo, a0, n) if c is not comp else a0
         if isinstance(a, ast.Call) and call_name(a) == 'os.path.join' and len(a.args) == 2 and not a.keywords:
             k = output_index(a.args[1])
             if k is None:
@@ -1207,35 +1315,36 @@ def r4(ctx: RuleCtx) -> None:
                     unknown.append(c)
                 continue                      # some other input of the aggregate (e.g. the import library)
             firsts.append((n, c, a))
-            ctx.require(norm(a.args[0]) == want_dir and norm(k) == '0', f'aggregate input is os.path.join({want_dir}, {want_out})', mod, qn, c,
+            ctx.require(norm(a.args[0]) == want_dir and norm(k) == '0', f'aggregate input is os.path.join({want_dir}, {want_out})', mod, aqn, c,
                         f'aggregate input is `{short(a, 90)}`; the path under which the statement that builds the target registers its first output is '
                         f'os.path.join({want_dir}, {want_out})', c)
         elif output_index(a) is not None:
             firsts.append((n, c, a))
-            ctx.violation(mod, qn, c, f'aggregate input is the bare output name `{short(a, 60)}`: the statement that builds the target produces '
+            ctx.violation(mod, aqn, c, f'aggregate input is the bare output name `{short(a, 60)}`: the statement that builds the target produces '
                           f'os.path.join({want_dir}, {want_out}), so targets in sub-directories are not reachable from the aggregate', c)
         else:
             unknown.append(c)
     if not firsts:
         if unknown:
             raise Undecided(f'aggregates: the inputs of the aggregate are added in a form the rule does not understand: `{short(unknown[0], 80)}`')
-        ctx.violation(mod, qn, f'{lst}.append(<output of {tv}>)', f'the loop over `{dvar}` never adds an output of `{tv}` to the inputs `{lst}` of the aggregate '
+        ctx.violation(mod, aqn, f'{lst}.append(<output of {tv}>)', f'the loop over `{dvar}` never adds an output of `{tv}` to the inputs `{lst}` of the aggregate '
                       f'({total} additions of other kinds)', il.ast)
         return
     fn_nodes = [n for n, c, a in firsts]
-    starts = [cfg.nodes[b] for b, lab in cfg.succ[il.id] if lab == 'iter'] if inner and not any(c is comp for _, c, _a in firsts) else []
+    starts = [acfg.nodes[b] for b, lab in acfg.succ[il.id] if lab == 'iter'] if inner and not any(c is comp for _, c, _a in firsts) else []
     esc = False
     for s in starts:
         if s in fn_nodes:
             continue
-        r = cfg.reachable([s], fn_nodes, include_start=True)
-        if il.id in r or en.id in r:
+        r = acfg.reachable([s], fn_nodes, include_start=True)
+        if any(e_.id in r for e_ in ends):
             esc = True
-    ctx.require(not esc, 'every target of the row contributes its first output (no iteration skips the append)', mod, qn, f'{lst}.append(first output)',
-                f'an iteration of the loop over `{dvar}` can end without appending the first output of `{tv}` to `{lst}`: that target is not reachable from the aggregate', il.ast)
-    after = en.id in info.reach(il, []) and not (il.id in cfg.reachable([en], [outer] if outer is not None else []))
-    if not after:
-        raise Undecided('aggregates: the aggregate statement is not created straight after the loop over its targets')
+    ctx.require(not esc, 'every target of the row contributes its first output (no iteration skips the append)', mod, aqn, f'{lst}.append(first output)',
+                f'an iteration of the loop over `{dvar if helper is None else hparam}` can end without appending the first output of `{tv}` to `{lst}`: that target is not reachable from the aggregate', il.ast)
+    if helper is None:
+        after = en.id in info.reach(il, []) and not (il.id in cfg.reachable([en], [outer] if outer is not None else []))
+        if not after:
+            raise Undecided('aggregates: the aggregate statement is not created straight after the loop over its targets')
     ctx.ok('the aggregate statement is created after the loop over its targets')
 
     # the sources
@@ -1255,7 +1364,7 @@ def r4(ctx: RuleCtx) -> None:
             fake = ast.If(test=ast.BoolOp(op=ast.And(), values=list(tests_)) if len(tests_) > 1 else tests_[0], body=[ast.Expr(value=ast.Constant(value='included'))], orelse=[]) \
                 if tests_ else ast.Expr(value=ast.Constant(value='included'))
             ast.fix_missing_locations(fake)
-            ftab = tables.extract(g, body=[fake], effects=lambda st: 'included' if isinstance(st, ast.Expr) and isinstance(st.value, ast.Constant) and st.value.value == 'included' else None,
+            ftab = _extract(g, body=[fake], effects=lambda st: 'included' if isinstance(st, ast.Expr) and isinstance(st.value, ast.Constant) and st.value.value == 'included' else None,
                                   inline=False, name='build_by_default filter')
         else:
             raise Undecided('get_build_by_default_targets does not iterate self.build.targets.items() in one comprehension')
@@ -1278,7 +1387,7 @@ def r4(ctx: RuleCtx) -> None:
             if isinstance(st, (ast.Assign, ast.AugAssign, ast.Delete)) or (isinstance(st, ast.Expr) and isinstance(st.value, ast.Call) and norm(st.value.func).startswith(res + '.')):
                 return 'other:' + norm(st)
             return None
-        ftab = tables.extract(g, body=loops_[0].body, effects=eff_store, inline=False, name='build_by_default filter')
+        ftab = _extract(g, body=loops_[0].body, effects=eff_store, inline=False, name='build_by_default filter')
     A_BD = tables.Atom('truth', (f'{v}.build_by_default',))
     extra_atoms = [a for a in ftab.atoms() if a != A_BD]
     if extra_atoms:
@@ -1596,7 +1705,7 @@ def _testlike_exhaustive(ctx: RuleCtx, bk: Module, t: ast.AST, ti: L.FnInfo, ln:
                         (isinstance(a, ast.Name) and a.id == tvn and not helper)
                         for a in list(x.args) + [k.value for k in x.keywords])):
                     raise Undecided(f'get_testlike_targets:{field}: `{short(x, 60)}` handles the value in code the row table does not contain')
-        tab = tables.extract(tab_fn, body=body, effects=eff, name=f'get_testlike_targets:{field}')  # type: ignore[arg-type]
+        tab = _extract(tab_fn, body=body, effects=eff, name=f'get_testlike_targets:{field}')  # type: ignore[arg-type]
 
         def row_yields(r: tables.Row, helper: bool = helper) -> T.Set[str]:
             ys_ = {e_ for e_ in r.effects if e_.startswith('yield ')}
@@ -1797,7 +1906,7 @@ def r5(ctx: RuleCtx) -> None:
     # validate_forbidden_targets: decision table
     vq = 'Interpreter.validate_forbidden_targets'
     vf = im.func(vq)
-    tab = tables.extract(vf, name='validate_forbidden_targets')
+    tab = _extract(vf, name='validate_forbidden_targets')
     from ..consteval import fold_expr
 
     def const_str(m: Module, e: ast.AST) -> T.Optional[str]:
@@ -2968,6 +3077,330 @@ def r12(ctx: RuleCtx) -> None:
     ctx.floor('class-guarded consumers of a produced per-target file name', nchk, 1)
 
 
+# ----------------------------------------------------------------------------
+# R13 / R14  conditions under which a file name may be used as an input: the producer's own predicate on the same target (R13),
+#            an existence test on a raw path that no statement produces (R14)
+# ----------------------------------------------------------------------------
+def _edge_facts(e: ast.AST, truth: bool) -> T.List[T.Tuple[ast.AST, bool]]:
+    """Atoms whose truth value is known when `e` evaluates to `truth`: not / and (true edge) / or (false edge) are opened."""
+    if isinstance(e, ast.UnaryOp) and isinstance(e.op, ast.Not):
+        return _edge_facts(e.operand, not truth)
+    if isinstance(e, ast.BoolOp) and ((isinstance(e.op, ast.And) and truth) or (isinstance(e.op, ast.Or) and not truth)):
+        return [f for v in e.values for f in _edge_facts(v, truth)]
+    if isinstance(e, ast.NamedExpr):
+        return _edge_facts(e.value, truth)
+    return [(e, truth)]
+
+
+def _dominating_facts(info: L.FnInfo, n: Node, var: T.Optional[str] = None) -> T.List[T.Tuple[ast.AST, bool]]:
+    """(atom with single-definition locals inlined, truth) for every test that decides whether node n is reached.  With `var`: only tests
+    at which `var` holds the same value as at n (same reaching definitions), i.e. tests about the current binding of the variable."""
+    cfg = info.cfg
+    out: T.List[T.Tuple[ast.AST, bool]] = []
+    here = [d.node.id if isinstance(d, L.Def) else d for d in info.reaching(var, n)] if var is not None else None
+    for t in cfg.nodes:
+        if t.kind != 'test' or t.id == n.id or not cfg.dominated_by_any(n, [t]):
+            continue
+        if var is not None and [d.node.id if isinstance(d, L.Def) else d for d in info.reaching(var, t)] != here:
+            continue
+        yes = [cfg.nodes[b] for b, lab in cfg.succ[t.id] if lab is True]
+        no = [cfg.nodes[b] for b, lab in cfg.succ[t.id] if lab is False]
+        via_yes = n.id in cfg.reachable(yes, [t], include_start=True)
+        via_no = n.id in cfg.reachable(no, [t], include_start=True)
+        if via_yes == via_no:
+            continue
+        for atom, tv in _edge_facts(t.ast.test, via_yes):  # type: ignore[union-attr]
+            for atom2, tv2 in _edge_facts(L.inline_locals(info, atom, t), tv):
+                out.append((atom2, tv2))
+            out.append((atom, tv))
+    return out
+
+
+def _comp_binding(mod: Module, c: ast.AST, var: str) -> T.Optional[T.Tuple[ast.AST, T.List[T.Tuple[ast.AST, bool]]]]:
+    """If `var` at expression c is the variable of an enclosing comprehension: (its iterable, facts of the `if` clauses that filter it)."""
+    pm = mod.parent_map()
+    cur: T.Optional[ast.AST] = c
+    prev: T.Optional[ast.AST] = None
+    while cur is not None and not isinstance(cur, (ast.stmt, ast.Lambda)):
+        if isinstance(cur, (ast.ListComp, ast.SetComp, ast.GeneratorExp, ast.DictComp)):
+            for gi, g in enumerate(cur.generators):
+                if var in names_in(g.target) and not any(prev is g2.iter or prev is g2 and any(c is x for x in ast.walk(g2.iter)) for g2 in cur.generators[:gi + 1]):
+                    return g.iter, [f for g2 in cur.generators[gi:] for cond in g2.ifs for f in _edge_facts(cond, True)]
+        prev, cur = cur, pm.get(cur)
+    return None
+
+
+def _self_pred(atom: ast.AST, subject: str) -> T.Optional[str]:
+    """`self.G(subject)` -> 'G'."""
+    if isinstance(atom, ast.Call) and len(atom.args) == 1 and not atom.keywords and isinstance(atom.args[0], ast.Name) and atom.args[0].id == subject:
+        cn = call_name(atom) or ''
+        if cn.startswith('self.') and cn.count('.') == 1:
+            return cn[5:]
+    return None
+
+
+def r13(ctx: RuleCtx) -> None:
+    repo = ctx.repo
+    mod = repo.module(NB)
+    infos = _infos(ctx)
+    funcs = _backend_funcs(mod)
+
+    def name_call(info: L.FnInfo, e: ast.AST, at: Node, depth: int = 0) -> T.Optional[T.Tuple[str, str, Node]]:
+        """The `self.F(<local>)` an output expression is (a component of): through [x], x[k], plain and tuple-unpacking assignments."""
+        if depth > 4:
+            return None
+        if isinstance(e, (ast.List, ast.Tuple)) and len(e.elts) == 1:
+            return name_call(info, e.elts[0], at, depth + 1)
+        if isinstance(e, (ast.Subscript, ast.Attribute)):
+            return name_call(info, e.value, at, depth + 1)       # a component of the result: x[k] or a field of a record
+        if isinstance(e, ast.Name):
+            rs = info.reaching(e.id, at)
+            if len(rs) == 1 and isinstance(rs[0], L.Def) and rs[0].kind in ('assign', 'unpack') and rs[0].value is not None:
+                return name_call(info, rs[0].value, rs[0].node, depth + 1)
+            return None
+        if isinstance(e, ast.Call) and len(e.args) == 1 and not e.keywords and isinstance(e.args[0], ast.Name):
+            cn = call_name(e) or ''
+            if cn.startswith('self.') and cn.count('.') == 1 and (f'{BACKEND}.{cn[5:]}' in funcs or repo.find_method(mod, mod.cls(BACKEND), cn[5:]) is not None):
+                return cn[5:], e.args[0].id, at
+        return None
+
+    def is_pred(g: str) -> bool:
+        return f'{BACKEND}.{g}' in funcs or repo.find_method(mod, mod.cls(BACKEND), g) is not None
+
+    def caller_guards(pq_: str, param: str) -> T.Set[str]:
+        """The guard may sit with the callers (`if self.G(t): self.P(t)`): predicates on the argument that hold at every call site of P."""
+        pmeth_ = pq_.split('.')[-1]
+        sets: T.List[T.Set[str]] = []
+        for q1, f1 in funcs.items():
+            for x in walk_no_nested(f1):
+                if isinstance(x, ast.Attribute) and x.attr == pmeth_ and attr_chain(x) == f'self.{pmeth_}':
+                    par = mod.parent_map().get(x)
+                    if not (isinstance(par, ast.Call) and par.func is x):
+                        return set()          # referenced as a value: call sites not all visible
+                    a = dict.get(_bound(mod, par, pq_), param)
+                    i1 = infos.get(q1)
+                    ns1 = i1.nodes_of(par)
+                    if not isinstance(a, ast.Name) or not ns1:
+                        return set()
+                    sets.append({g for atom, tv in _dominating_facts(i1, ns1[0], a.id) if tv for g in [_self_pred(atom, a.id)] if g is not None and is_pred(g)})
+        return set.intersection(*sets) if sets else set()
+
+    # producers: P(p) writes a statement whose output is (a component of) self.F(p), on paths where self.G(p) holds
+    prod: T.Dict[str, T.List[T.Tuple[str, str, T.Set[str]]]] = {}
+    for q, f in funcs.items():
+        ps = _param_names(f)
+        for c in _own_calls(f):
+            if not _is_ctor(c, ELEMENT):
+                continue
+            oe = dict.get(_elem_args(mod, c), 'outfilenames')
+            if oe is None or isinstance(oe, ast.Constant):
+                continue
+            info = infos.get(q)
+            ns = info.nodes_of(c)
+            if not ns:
+                continue
+            nc = name_call(info, oe, ns[0])
+            if nc is None or nc[1] not in ps or info.reaching(nc[1], nc[2]) != [L.ENTRY] or info.reaching(nc[1], ns[0]) != [L.ENTRY]:
+                continue
+            gs = {g for atom, tv in _dominating_facts(info, ns[0], nc[1]) if tv for g in [_self_pred(atom, nc[1])] if g is not None and is_pred(g)}
+            if not gs:
+                gs = caller_guards(q, nc[1])
+            prod.setdefault(nc[0], []).append((q, nc[1], gs))
+    nchk = 0
+    ntrip = 0
+    for fname, ps_ in sorted(prod.items()):
+        if len({q for q, _, _ in ps_}) != 1:
+            continue        # several producing functions: no single guard to compare with
+        guards = set.intersection(*[g for _, _, g in ps_])
+        if not guards:
+            continue        # produced unconditionally (or under conditions that are not predicates of the backend on the target)
+        pq = ps_[0][0]
+        ntrip += 1
+        ctx.note(f'{fname}(x): the statements that produce it are written by {pq.split(".")[-1]}(x) only if {" and ".join("self." + g + "(x)" for g in sorted(guards))}')
+        for q, f in funcs.items():
+            if q == f'{BACKEND}.{fname}':
+                continue
+            for c in _own_calls(f):
+                if call_name(c) != f'self.{fname}' or len(c.args) != 1 or c.keywords or not isinstance(c.args[0], ast.Name):
+                    continue
+                info = infos.get(q)
+                ns = info.nodes_of(c)
+                if not ns:
+                    continue
+                x = c.args[0].id
+                cb = _comp_binding(mod, c, x)
+                iter_e: T.Optional[ast.AST] = None
+                iter_at = ns[0]
+                if cb is not None:
+                    iter_e, facts = cb
+                    kind = 'member'
+                else:
+                    facts = _dominating_facts(info, ns[0], x)
+                    rd = info.reaching(x, ns[0])
+                    if rd == [L.ENTRY] and x in info.params:
+                        kind = 'param'
+                    elif len(rd) == 1 and isinstance(rd[0], L.Def) and rd[0].kind == 'iter' and isinstance(rd[0].node.ast.target, ast.Name):  # type: ignore[union-attr]
+                        kind, iter_e, iter_at = 'member', rd[0].value, rd[0].node
+                    else:
+                        kind = 'other'
+                held = {g for atom, tv in facts if tv for g in [_self_pred(atom, x)] if g is not None}
+                what = f'{q}: {fname}({x}) is used only where {"/".join(sorted(guards))}({x}) holds'
+                if guards <= held:
+                    nchk += 1
+                    ctx.ok(what)
+                    continue
+                if any(x in names_in(atom) for atom, _ in facts):
+                    ctx.note(f'{q}: `{short(c, 50)}` is under another condition on `{x}`; whether it implies {"/".join(sorted(guards))}({x}) is not decided')
+                    continue
+                if kind != 'member' or iter_e is None:
+                    ctx.note(f'{q}: `{short(c, 50)}`: `{x}` is not the member of a collection iterated here; its condition lies with the callers, not compared')
+                    continue
+                # an unconditional use for every member of a collection: fine only if the collection itself was filtered by the predicate
+                ie = L.inline_locals(info, iter_e, iter_at) if cb is None else iter_e
+                if isinstance(ie, (ast.ListComp, ast.SetComp, ast.GeneratorExp)) and len(ie.generators) == 1 and isinstance(ie.generators[0].target, ast.Name) \
+                        and isinstance(ie.elt, ast.Name) and ie.elt.id == ie.generators[0].target.id:
+                    fl = {g for cond in ie.generators[0].ifs for atom, tv in _edge_facts(cond, True) if tv for g in [_self_pred(atom, ie.elt.id)] if g is not None}
+                    if guards <= fl:
+                        nchk += 1
+                        ctx.ok(what + ' (collection filtered by it)')
+                        continue
+                    if any(ie.elt.id in names_in(cond) for cond in ie.generators[0].ifs):
+                        ctx.note(f'{q}: `{short(c, 50)}`: the collection is filtered by another condition on its members; whether it implies {"/".join(sorted(guards))}() is not decided')
+                        continue
+                    ie = ie.generators[0].iter      # a filter that says nothing about the member: the members are those of the underlying collection
+                if isinstance(ie, ast.Call) and isinstance(ie.func, ast.Name) and ie.func.id == 'filter' and len(ie.args) == 2 and not ie.keywords \
+                        and (attr_chain(ie.args[0]) or '').startswith('self.') and {(attr_chain(ie.args[0]) or '')[5:]} >= guards:
+                    nchk += 1
+                    ctx.ok(what + ' (collection filtered by it)')
+                    continue
+                opaque = [y for y in ast.walk(ie) if (isinstance(y, ast.Call) and ((call_name(y) or '').startswith('self.') or call_name(y) in ('filter', 'itertools.filterfalse') or
+                                                                               (isinstance(y.func, ast.Name) and mod.has_func(y.func.id))))
+                          or (isinstance(y, ast.Name) and isinstance(y.ctx, ast.Load) and y.id not in info.params and y.id != 'self' and info.defs().get(y.id))
+                          or isinstance(y, (ast.ListComp, ast.SetComp, ast.GeneratorExp, ast.DictComp))]
+                if opaque:
+                    raise Undecided(f'{q}: `{short(c, 50)}` is used for every member of `{short(ie, 60)}`; whether that collection is already filtered by '
+                                    f'{"/".join(sorted(guards))}() is not read')
+                nchk += 1
+                other = sorted({f'self.{g}({short(atom.args[0], 20)})' for atom, tv in _dominating_facts(info, ns[0]) if tv and isinstance(atom, ast.Call)  # type: ignore[attr-defined]
+                                for g in [(call_name(atom) or '')[5:]] if g in guards and len(atom.args) == 1})
+                ctx.violation(mod, q, f'{fname}(<member of {norm(ie)}>) without {"/".join(sorted(guards))}(<member>)',
+                              f'`{short(c, 60)}` names the file of every member `{x}` of `{short(ie, 60)}` with no condition on `{x}`'
+                              + (f' (the guard here is {", ".join(other)}, a different target)' if other else '') +
+                              f', but {pq.split(".")[-1]}() writes the statement that produces that file only if self.{"/".join(sorted(guards))}(<that target>): for a member '
+                              'for which the predicate is false the name is an input that exists nowhere and that no statement produces', c)
+    if ntrip == 0:
+        raise Undecided('no per-target file name whose only producer works under a predicate of the backend on the target was found')
+    ctx.floor('uses of a predicate-guarded per-target file name checked against the predicate', nchk, 2)
+
+
+_EXISTS = {'os.path.isfile', 'os.path.exists'}
+_PURE_PATH = {'os.path.join', 'os.path.normpath', 'os.path.abspath', 'os.path.realpath', 'str', 'os.fspath', 'os.path.expanduser'}
+
+
+def r14(ctx: RuleCtx) -> None:
+    mod = ctx.repo.module(NB)
+    qn = f'{BACKEND}.guess_external_link_dependencies'
+    info = _infos(ctx).get(qn)
+    cfg = info.cfg
+    rets = [n for n in cfg.nodes if n.kind == 'stmt' and isinstance(n.ast, ast.Return) and n.ast.value is not None]
+    if not rets:
+        raise Undecided(f'{qn} returns nothing')
+
+    def parts(e: ast.AST) -> T.List[ast.AST]:
+        if isinstance(e, ast.BinOp) and isinstance(e.op, ast.Add):
+            return parts(e.left) + parts(e.right)
+        if isinstance(e, (ast.List, ast.Tuple)):
+            return [y for x in e.elts for y in (parts(x.value) if isinstance(x, ast.Starred) else [ast.List(elts=[x], ctx=ast.Load())])]
+        if isinstance(e, ast.Call) and isinstance(e.func, ast.Name) and e.func.id in ('list', 'tuple', 'sorted') and len(e.args) == 1 and not e.keywords:
+            return parts(e.args[0])
+        return [e]
+
+    def exists_fact(facts: T.List[T.Tuple[ast.AST, bool]], v: ast.AST) -> bool:
+        for atom, tv in facts:
+            if not tv or not isinstance(atom, ast.Call):
+                continue
+            if call_name(atom) in _EXISTS and len(atom.args) == 1 and norm(atom.args[0]) == norm(v):
+                return True
+            f = atom.func      # Path(v).is_file() / Path(v).exists()
+            if isinstance(f, ast.Attribute) and f.attr in ('is_file', 'exists') and not atom.args and isinstance(f.value, ast.Call) and \
+                    (call_name(f.value) or '').split('.')[-1] in ('Path', 'PurePath') and len(f.value.args) == 1 and norm(f.value.args[0]) == norm(v):
+                return True
+        return False
+
+    def hidden_test(facts: T.List[T.Tuple[ast.AST, bool]], v: ast.AST) -> T.Optional[ast.AST]:
+        for atom, _tv in facts:
+            for y in ast.walk(atom):
+                if isinstance(y, ast.Call) and any(norm(a_) == norm(v) for a_ in list(y.args) + [k.value for k in y.keywords]) and \
+                        ((call_name(y) or '').startswith('self.') or (isinstance(y.func, ast.Name) and mod.has_func(y.func.id))):
+                    return y
+        return None
+
+    def judge(n: Node, construct: ast.AST, v: ast.AST, facts: T.List[T.Tuple[ast.AST, bool]], inlined: ast.AST) -> int:
+        calls = [y for y in ast.walk(inlined) if isinstance(y, ast.Call) and call_name(y) not in _PURE_PATH]
+        if calls:
+            ctx.note(f'`{short(v, 50)}` is the result of `{short(calls[0], 50)}`: resolved by a helper, not examined here')
+            return 0
+        if not names_in(inlined):
+            return 0
+        if exists_fact(facts, v) or exists_fact(facts, inlined):
+            ctx.ok(f'the raw path `{short(v, 40)}` is recorded as an implicit dependency only if it exists')
+            return 1
+        h = hidden_test(facts, v)
+        if h is not None:
+            raise Undecided(f'{qn}: the raw path `{short(v, 40)}` is recorded under `{short(h, 60)}`, which may test its existence in a form the rule does not read')
+        ctx.violation(mod, qn, 'raw command-line path recorded as an implicit dependency without an existence test',
+                      f'`{short(construct, 70)}` records the path `{short(v, 40)}` taken from the link command line as an implicit input of the link statement although no '
+                      f'dominating condition tests that the file exists (os.path.isfile / os.path.exists / Path.is_file): no statement produces an external library, so a path '
+                      'that is absent at configure time is a dangling input', construct)
+        return 1
+
+    nraw = 0
+    delegated: T.List[str] = []
+    seen: T.Set[str] = set()
+    for rn in rets:
+        for pe in parts(rn.ast.value):  # type: ignore[union-attr]
+            if isinstance(pe, ast.List) and len(pe.elts) == 1 and not hasattr(pe, 'lineno'):
+                nraw += judge(rn, rn.ast, pe.elts[0], _dominating_facts(info, rn), L.inline_locals(info, pe.elts[0], rn))  # type: ignore[arg-type]
+                continue
+            if not isinstance(pe, ast.Name):
+                if isinstance(pe, ast.Call):
+                    ctx.note(f'`{short(pe, 50)}` is returned from a helper call: not examined here')
+                    delegated.append(short(pe, 60))
+                    continue
+                raise Undecided(f'{qn}: returned part `{short(pe, 60)}` is not a local list')
+            if pe.id in seen:
+                continue
+            seen.add(pe.id)
+            for d in info.base_defs(pe.id, rn):
+                if not isinstance(d, L.Def) or d.value is None:
+                    raise Undecided(f'{qn}: the returned list `{pe.id}` is not created in the function')
+                dv = d.value
+                if (isinstance(dv, ast.List) and not dv.elts) or (isinstance(dv, ast.Call) and call_name(dv) in ('list', 'OrderedSet', 'set') and not dv.args):
+                    continue
+                if isinstance(dv, (ast.ListComp, ast.SetComp)) and len(dv.generators) == 1 and isinstance(dv.generators[0].target, ast.Name):
+                    facts = [f for cond in dv.generators[0].ifs for f in _edge_facts(cond, True)] + _dominating_facts(info, d.node)
+                    nraw += judge(d.node, dv, dv.elt, facts, dv.elt)
+                    continue
+                if isinstance(dv, ast.Call) and (call_name(dv) or '').startswith('self.'):
+                    ctx.note(f'`{pe.id}` starts as `{short(dv, 50)}`: resolved by a helper, not examined here')
+                    delegated.append(short(dv, 60))
+                    continue
+                raise Undecided(f'{qn}: the returned list `{pe.id}` starts as `{short(dv, 60)}`, a form the rule does not read')
+            for n, c, a in info.additions(pe.id):
+                if a is None:
+                    args = c.args if isinstance(c, ast.Call) else [getattr(c, 'value', None)]
+                    if args and isinstance(args[0], ast.Call) and (call_name(args[0]) or '').startswith('self.'):
+                        ctx.note(f'`{short(c, 60)}` adds the result of a helper: not examined here')
+                        delegated.append(short(c, 60))
+                        continue
+                    raise Undecided(f'{qn}: `{short(c, 60)}` adds to the returned list in a form the rule does not itemise')
+                var = a.id if isinstance(a, ast.Name) else None
+                nraw += judge(n, c, a, _dominating_facts(info, n, var), L.inline_locals(info, a, n))
+    if nraw == 0 and delegated:
+        raise Undecided(f'{qn}: no raw path is added to the returned dependencies in this function itself; `{delegated[0]}` may do it in a form the rule does not read')
+    ctx.floor('raw command-line paths recorded as implicit link dependencies', nraw, 1)
+
+
 
 def _resolve_callee(mod: Module, fi: L.FnInfo, c: ast.Call, at: Node) -> T.Optional[T.Tuple[str, ast.Call, bool]]:
     """Repository function a call goes to: a module function, a method of the element class (`self.m`, `Cls.m`), or a local bound to
@@ -3054,4 +3487,6 @@ RULES = [
     Rule('C04.R10', 'a pool named by a rule is declared under an implied condition', r10),
     Rule('C04.R11', 'all call sites of a method pass the environment directories in the same roles', r11),
     Rule('C04.R12', 'a produced per-target file name is handed out only for classes whose producer is called', r12),
+    Rule('C04.R13', 'a per-target file name produced under a predicate on the target is used for members of a collection only under that predicate', r13),
+    Rule('C04.R14', 'a raw command-line path becomes an implicit link dependency only under an existence test', r14),
 ]
